@@ -55,6 +55,10 @@ def model_check(ctx):
                          r["out"], re.M):
         taken[m.group(1)] = int(m.group(3))
     ctx.extra["action_transitions"] = taken
+    from crv.tlc import printed_tuples, tla_unquote
+    import json
+    for payload in printed_tuples(r["out"], "BAND"):               # how much of the argument space is an EITHER band
+        ctx.extra["either_bands"] = json.loads(tla_unquote(payload))
     dead = [a for a in ("Construct", "Add", "Sub", "Mul", "Div", "Round", "Intersect", "AngleShift") if not taken.get(a)]
     if dead:
         from crv.tlc import MachineryError
@@ -161,7 +165,7 @@ def _sgn(n):
 
 
 def _lenclass(ln):
-    return "len=0" if ln == 0 else "len<pi" if ln < 12 else "len=pi" if ln == 12 else "len>pi"
+    return "len<pi" if ln < 12 else "len=pi" if ln == 12 else "len>pi"
 
 
 # ---- execution -------------------------------------------------------------------------------------------------
@@ -181,9 +185,9 @@ def _plain(case, ev):
             for xt in ["float"] + (["int"] if x % 4 == 0 else []):
                 v = q(x, xt)
                 ev.append(dict(base, op="contains", x=x, xgrid=1, res=_bool(lambda: mk().contains(v)),
-                               sig="contains/method/I:%s/x:%s" % (typ, xt)))
+                               sig="contains/I:%s/x:%s" % (typ, xt)))
                 ev.append(dict(base, op="contains", x=x, xgrid=1, res=_bool(lambda: v in mk()),
-                               sig="contains/in/I:%s/x:%s" % (typ, xt)))
+                               sig="in/I:%s/x:%s" % (typ, xt)))
         for js, je in case["js"]:
             jt = "int" if typ == "int" and js % 4 == 0 and je % 4 == 0 else "float"
             mj = lambda: Interval(q(js, jt), q(je, jt))
@@ -242,18 +246,18 @@ def _plain_random(case, ev):
             if c is None:
                 continue
             k, on = c
-        sg = "ongrid" if on else "offgrid"
         ev.append(dict(base, op="contains", x=k, xgrid=on, res=_bool(lambda: mk().contains(v)),
-                       sig="contains/method/random-%s/x:%s" % (sg, vt)))
+                       sig="contains/I:float/x:%s" % vt))
         ev.append(dict(base, op="contains", x=k, xgrid=on, res=_bool(lambda: v in mk()),
-                       sig="contains/in/random-%s/x:%s" % (sg, vt)))
+                       sig="in/I:float/x:%s" % vt))
 
 
-def _angle_queries(base, mk, lc, queries, ev, tag=""):
+def _angle_queries(base, mk, lc, queries, ev):
+    """I.contains(v) and `v in I`; sig = call form / is the interval longer than pi / argument type"""
     for th, on, v, vt in queries:
         b2 = dict(base, op="angle_contains", th=th, thgrid=on, thtype=vt)
-        ev.append(dict(b2, res=_bool(lambda: mk().contains(v)), sig="angle_contains/method/%s/%s%s" % (lc, vt, tag)))
-        ev.append(dict(b2, res=_bool(lambda: v in mk()), sig="angle_contains/in/%s/%s%s" % (lc, vt, tag)))
+        ev.append(dict(b2, res=_bool(lambda: mk().contains(v)), sig="angle_contains/%s/%s" % (lc, vt)))
+        ev.append(dict(b2, res=_bool(lambda: v in mk()), sig="angle_in/%s/%s" % (lc, vt)))
 
 
 def _angle(case, ev):
@@ -283,7 +287,7 @@ def _angle(case, ev):
             continue                                               # reported by J's own case (angle_construct)
         b2 = dict(base, ja=ja, jlen=jl)
         ev.append(dict(b2, op="angle_contains_interval", res=_bool(lambda: mk().contains(mj())),
-                       sig="angle_contains_interval/I:%s/J:%s" % (lc, _lenclass(jl))))
+                       sig="angle_contains_interval/I:%s/J:%s" % (lc, "len<pi" if jl < 12 else "len>=pi")))
         ev.append(dict(b2, op="angle_overlaps", res=_bool(lambda: mk().overlaps(mj())), sig="angle_overlaps/%s" % lc))
     if ln > 0:
         ev.append(dict(op="angle_construct", a=a + ln, b=a, sig="angle_construct_inverted",
@@ -307,7 +311,7 @@ def _angle_random(case, ev):
         c = _cell(float(v), STEP)
         if c is not None and -37 <= c[0] <= 36:
             qs.append((c[0], 0, v, vt))
-    _angle_queries({"a": a, "len": ln}, mk, lc, qs, ev, tag="/random")
+    _angle_queries({"a": a, "len": ln}, mk, lc, qs, ev)
 
 
 def execute(case):
